@@ -25,6 +25,7 @@ FUNCS = {
           "next_state_id_leftmost_unchecked", "State::{base,check,fail,output_pos}", "Output::{value,length,parent}",
           "CharwiseDoubleArrayAhoCorasick::{child_index_unchecked,next_state_id_unchecked,next_state_id_leftmost_unchecked}",
           "CodeMapper::get", "num_states", "num_elements", "heap_bytes"],
+    "A": ["deserialize_unchecked (whole image)", "SerializableVec::deserialize_from_slice", "PartialEq for the automaton"],
     "E": ["find_iter", "find_overlapping_iter", "find_overlapping_no_suffix_iter", "leftmost_find_iter",
           "the four Iterator::next impls of each variant", "CharWithEndOffsetIterator::next", "Match::{start,end,value}"],
 }
@@ -96,7 +97,7 @@ def run_check(prop, tier, seed, scratch, t0, args):
                 cost = 10 ** 6 * h.get("L", 2)
             job = dict(harness=h["harness"], unwind=h["unwind"], unwindset=h.get("unwindset"),
                        timeout_s=hand.TIMEOUT[tier]["E" if fam.startswith("E") else "T"],
-                       mem_gb=16 if fam.startswith("E") else (8 if g["nslot"] > 600 else 5), cost=cost)
+                       mem_gb=24 if fam.startswith("E") else (8 if g["nslot"] > 600 else 5), cost=cost)
             jobs.append(job)
             meta[h["harness"]] = dict(family=fam, automaton=g["name"], gen=g, h=h)
     for hn in hand_names:
@@ -111,7 +112,9 @@ def run_check(prop, tier, seed, scratch, t0, args):
 
     print("check %s tier=%s seed=%d: %d automata, %d harnesses (codegen %.0fs)"
           % (prop, tier, seed, len(built), len(jobs), ws.codegen_s), flush=True)
-    results = kani.run_jobs(ws, jobs, os.path.join(scratch, "work"), progress=progress)
+    results = kani.run_jobs(ws, jobs, os.path.join(scratch, "work"), progress=progress,
+                            max_par=int(os.environ.get("VERIF_JOBS", "14")),
+                            mem_budget_gb=int(os.environ.get("VERIF_MEM_GB", "52")))
 
     # --- self-test of the pipeline (DESIGN.md section 5) ---
     inconclusive = []
@@ -197,7 +200,7 @@ def write_evidence(prop, tier, seed, ws, results, meta, violations, inconclusive
             if fam in ("T1", "T2", "T5") and r.status == "ok":
                 states += g["ns"]
                 transitions += g["ns"] * labels
-            elif fam in ("T34", "T6") and r.status == "ok":
+            elif fam in ("T34", "T6", "A") and r.status == "ok":
                 states += g["ns"]
                 transitions += g["ns"]
             elif fam.startswith("E") and r.status == "ok":
